@@ -261,12 +261,19 @@ func (s *c12Stream) replay(steps []c12Step, enc []byte) c12Run {
 		return c12Run{err: err, done: true, anomaly: "constructor-error"}
 	}
 	var res c12Run
+	// one destination buffer for all reads (as io.Copy uses it); what a read delivered is taken out and the
+	// whole buffer is overwritten before the next read: a reader must not keep references into it
+	shared := make([]byte, 65536)
 	for i, st := range steps {
 		src.eofWith = st.EOF
-		buf := make([]byte, st.D)
-		for j := range buf {
-			buf[j] = 0xEE
+		hi := st.D
+		if i > 0 && steps[i-1].D > hi {
+			hi = steps[i-1].D
 		}
+		for j := range shared[:hi] {
+			shared[j] = 0xEE
+		}
+		buf := shared[:st.D]
 		n, err := rd.Read(buf)
 		if n < 0 || n > len(buf) {
 			res.anomaly = "read-count-out-of-range"
@@ -291,7 +298,7 @@ func (s *c12Stream) replay(steps []c12Step, enc []byte) c12Run {
 }
 
 func C12(r *ck.Run) {
-	r.Rule("for every valid stream of the menu (payload lengths × chunk splits × signed / signed+trailer / unsigned+trailer × checksum algorithms): breadth-first search over the REAL reader object where one transition is one Read(p) with len(p) from a menu and the source handing out any admissible number of bytes (EOF together with the final bytes or in a read of its own), states deduplicated on (source offset, bytes delivered, reflective dump of every reader field incl. hash states) until closure; plus every truncation point and every single-byte substitution (6 representatives per offset) of each stream under whole / 1-byte / 7-byte fragmentation; distinct = distinct state or mutated stream")
+	r.Rule("for every valid stream of the menu (payload lengths × chunk splits × signed / signed+trailer / unsigned+trailer × checksum algorithms): breadth-first search over the REAL reader object where one transition is one Read(p) with len(p) from a menu and the source handing out any admissible number of bytes (EOF together with the final bytes or in a read of its own), states deduplicated on (source offset, bytes delivered, reflective dump of every reader field incl. hash states) until closure; plus every truncation point and every single-byte substitution (6 representatives per offset) of each stream under whole / 1-byte / 7-byte fragmentation; the destination buffer is one reused, overwritten buffer; plus every interleaving of the Read calls of two readers of two uploads (destination smaller than the chunks); distinct = distinct state, mutated stream or reader pair")
 	r.Assume("the reader is a deterministic function of its construction arguments and the (len(p), bytes, error) answers of its source")
 	streams := c12Streams(r.Thorough())
 	dests := []int{1, 2, 3, 7, 16, 64, 4096, 32768}
@@ -306,7 +313,99 @@ func C12(r *ck.Run) {
 			c12Closure(r, s, dests)
 			c12Mutations(r, s)
 		}
+		if !r.IsWorker() || r.ShardI == 0 {
+			c12Pairs(r, streams)
+		}
 	})
+}
+
+// c12Pairs: two readers of two uploads in flight in one process. Every interleaving of their Read calls (whole
+// source, destination smaller than the chunks so that both keep undelivered bytes between calls) must deliver
+// both payloads: nothing a reader keeps between calls may be shared with another reader.
+func c12Pairs(r *ck.Run, streams []*c12Stream) {
+	var pick []*c12Stream
+	for _, s := range streams {
+		if len(s.Payload) >= 5 && len(s.Payload) <= 6 && (s.Algo == "" || s.Algo == "crc32") {
+			pick = append(pick, s)
+		}
+	}
+	readsOf := func(s *c12Stream, d int) int {
+		out, err := s.decodeAll(s.Enc, 0, d, false)
+		_ = out
+		_ = err
+		n := 0
+		src := &fragSource{data: s.Enc}
+		rd, e := s.newReader(src)
+		if e != nil {
+			return 0
+		}
+		buf := make([]byte, d)
+		for n < 200 {
+			_, err := rd.Read(buf)
+			n++
+			if err != nil {
+				break
+			}
+		}
+		return n
+	}
+	for ai, a := range pick {
+		for bi, b := range pick {
+			if bi < ai {
+				continue
+			}
+			for _, d := range []int{1, 2} {
+				na, nb := readsOf(a, d), readsOf(b, d)
+				if na == 0 || nb == 0 || na+nb > 16 {
+					continue
+				}
+				// enumerate every interleaving as a bit string with na zeros and nb ones
+				var rec func(order []int, ca, cb int)
+				rec = func(order []int, ca, cb int) {
+					if ca == na && cb == nb {
+						srcs := [2]*fragSource{{data: a.Enc}, {data: b.Enc}}
+						ra, e1 := a.newReader(srcs[0])
+						rb, e2 := b.newReader(srcs[1])
+						if e1 != nil || e2 != nil {
+							return
+						}
+						rds := [2]io.Reader{ra, rb}
+						var outs [2][]byte
+						var errs [2]error
+						bufs := [2][]byte{make([]byte, d), make([]byte, d)}
+						for _, w := range order {
+							if errs[w] != nil {
+								continue
+							}
+							n, err := rds[w].Read(bufs[w])
+							outs[w] = append(outs[w], bufs[w][:n]...)
+							errs[w] = err
+							for j := range bufs[w] {
+								bufs[w][j] = 0xEE
+							}
+						}
+						r.Add("evaluations", 1)
+						r.Add("pair_interleavings", 1)
+						okA := bytes.Equal(outs[0], a.Payload) && errs[0] == io.EOF
+						okB := bytes.Equal(outs[1], b.Payload) && errs[1] == io.EOF
+						if !okA || !okB {
+							r.Violation(ck.JoinSig("two-readers", a.Mode+"+"+b.Mode, "payload-of-one-upload-disturbed-by-another"), map[string]any{"stream_a": a.Name, "stream_b": b.Name, "dest": d, "order": fmt.Sprint(order),
+								"got_a": fmt.Sprintf("%q err=%v", outs[0], errs[0]), "want_a": string(a.Payload), "got_b": fmt.Sprintf("%q err=%v", outs[1], errs[1]), "want_b": string(b.Payload)})
+						}
+						return
+					}
+					if ca < na {
+						rec(append(order, 0), ca+1, cb)
+					}
+					if cb < nb {
+						rec(append(order, 1), ca, cb+1)
+					}
+				}
+				rec(nil, 0, 0)
+				r.Distinct(fmt.Sprintf("pair|%s|%s|%d", a.Name, b.Name, d))
+			}
+		}
+	}
 }
 
 func c12Closure(r *ck.Run, s *c12Stream, dests []int) {
@@ -450,6 +549,9 @@ func (s *c12Stream) decodeAll(enc []byte, frag int, dest int, eofWith bool) ([]b
 		out = append(out, buf[:n]...)
 		if err != nil {
 			return out, err
+		}
+		for j := range buf {
+			buf[j] = 0xEE // the caller reuses its buffer
 		}
 	}
 	return out, fmt.Errorf("verif: reader made no progress (%d reads)", 4*len(enc)+64)
